@@ -310,6 +310,23 @@ theorem c03Check_emit (env : Env) (henv : EnvOk env) (isHead : Bool) (out : Outc
       · simp [stdFirst, stdHeaders]
       · simpa [expectedError] using errorPageClauses_expected env isHead st
 
+/-- what the clauses of a handler result say, read off an accepted response: the status is the
+handler's, the header block is `Server`, `Date` and then EXACTLY the handler's headers in order —
+nothing dropped, nothing added by the server — and the body is the handler's (empty when absent) -/
+theorem resultClauses_exact (env : Env) (isHead : Bool) (st : Nat) (hs : Option (List Header)) (b : Option Bytes)
+    (r : Response) (hnb : isBare st hs b = false)
+    (h : (resultClauses env isHead (.ret st hs b) r).all (·.2) = true) :
+    ∃ sv dv, r = ⟨st, (lit "Server", sv) :: (lit "Date", dv) :: hs.getD [], b.getD []⟩ := by
+  obtain ⟨status, headers, body⟩ := r
+  simp only [resultClauses, hnb, Bool.false_eq_true, ↓reduceIte, List.all_cons, List.all_nil, Bool.and_true,
+    Bool.and_eq_true, beq_iff_eq] at h
+  obtain ⟨hst, hstd, hh, hb⟩ := h
+  match headers, hstd, hh with
+  | (n1, v1) :: (n2, v2) :: rest, hstd, hh =>
+    simp only [stdFirst, Bool.and_eq_true, beq_iff_eq] at hstd
+    simp only [List.drop_succ_cons, List.drop_zero] at hh
+    exact ⟨v1, v2, by rw [hst, hb, hstd.1, hstd.2, hh]⟩
+
 /-- **Every exchange is well-formed.** For every request target and every handler list with
 well-formed results, what `_delegate_request` writes parses as exactly one response — the one the
 outcome demands — with nothing after it, and satisfies the C03 checker. -/
@@ -372,5 +389,31 @@ example : c03Check envEx false (.handled 0 (.ret 200 (some [(lit "X-A", lit "1")
     (emit envEx false (.ret 200 (some []) none)) = false := by decide
 set_option maxRecDepth 8000 in
 example : c03Check envEx false (.handled 0 .raised) (sendError envEx false 404) = false := by decide
+
+/-! #### exactly the handler's headers: the server adds none of its own -/
+
+/-- a HEAD-style result: the size of the resource as `Content-Length`, no body -/
+def headResult : Result := .ret 200 (some [(lit "Content-Length", lit "45")]) none
+
+/-- what a server sends that appends `Content-Length: 0` whenever the handler returned no body -/
+def withExtraCL : Bytes :=
+  sendResponse envEx 200 ++ headerLines [(lit "Content-Length", lit "45"), (lit "Content-Length", lit "0")] ++ crlf
+
+/-- two conflicting `Content-Length` fields: the bytes parse as one response, every returned header
+does occur in order (the old sublist clause), but the header block is not the handler's — rejected,
+and `headers` is the clause that fails; the model's emission of the same result is accepted -/
+example : c09ResponseOk true withExtraCL = true ∧
+    [(lit "Content-Length", lit "45")].isSublist
+      [(lit "Content-Length", lit "45"), (lit "Content-Length", lit "0")] = true ∧
+    c03Check envEx true (.handled 0 headResult) withExtraCL = false ∧
+    firstFailed (clauses envEx true (.handled 0 headResult) withExtraCL) = some "headers" ∧
+    c03Check envEx true (.handled 0 headResult) (emit envEx true headResult) = true := by decide
+
+/-- the same for a result without headers of its own (`(200, None, None)`, GET): a `Content-Length: 0`
+that the handler did not return is rejected -/
+example : c03Check envEx false (.handled 0 (.ret 200 none none))
+      (sendResponse envEx 200 ++ headerLines [(lit "Content-Length", lit "0")] ++ crlf) = false ∧
+    c03Check envEx false (.handled 0 (.ret 200 none none)) (emit envEx false (.ret 200 none none)) = true := by
+  decide
 
 end Vinegar.C03
